@@ -295,7 +295,22 @@ func (w *World) handleEvent(rw http.ResponseWriter, r *http.Request) {
 }
 
 // StartCore launches (or relaunches) simcore against the same Consul and master.
+// StartCore starts a core process; when the process dies before it serves its control port because one of the ports picked
+// for it was taken by somebody else in the meantime (several checks share the machine), it is started again on fresh ports.
 func (w *World) StartCore() error {
+	var err error
+	for attempt := 0; attempt < 4; attempt++ {
+		err = w.startCoreOnce()
+		if err == nil || !strings.Contains(err.Error(), "core exited during start") || !strings.Contains(err.Error(), "address already in use") {
+			return err
+		}
+		w.Note("core start attempt %d lost a port to another process, retrying", attempt+1)
+		time.Sleep(time.Duration(50*(attempt+1)) * time.Millisecond)
+	}
+	return err
+}
+
+func (w *World) startCoreOnce() error {
 	bin := filepath.Join(os.Getenv("VERIF_BUILD"), "simcore")
 	if w.opts.Race {
 		bin += ".race"
